@@ -34,6 +34,10 @@ CLAIMED['C06'] = dict(design='5 (C06), 2', note='trusted: MIRSE MIR semantics + 
 CLAIMED['C15'] = dict(design='5 (C15), 2', note='trusted: MIRSE MIR semantics + std models; real InsertEdits/ReplaceEdits providers with tables '
     'keyed by the word\'s own contexts, can_delete/can_swap arbitrary Boolean answers, rand = every stream; oracle = set of all results one '
     'legal edit may produce; HashSet order fixed (results compared as sets); underflow defect repaired by a fix commit')
+CLAIMED['C14'] = dict(design='5 (C14), 2', note='trusted: MIRSE MIR semantics + std models, grapheme model over Sigma_g; the corruption closure is '
+    'obtained and called through the real preprocessing(WhitespaceCorruption(..)) path; rand = every stream, determinism = all draws come from '
+    'a generator seeded with info.seed; label consistency checked with the real operations()/repair(); known finding KF-C14-1 (cluster '
+    'boundaries change in grapheme mode) excluded only while its witness reproduces; the tokenizer-based task closure is outside')
 NOT_YET = 'check not built yet in this session (work in progress, see DESIGN.md section 6 for the order)'
 NA = {}
 
